@@ -4,7 +4,7 @@
    ref_place (reference sequence), ProofsSeq.ref_st_step / ref_ll_step /
    ref_qu_step, ProofsPS.spec_ok (reference association list of the pointer
    slot), ProofsPS.seg (ring segment [alloc_index, alloc_index + free)). *)
-From MV Require Import C11.Model C11.Proofs.
+From MV Require Import C11.Model C11.Proofs gen.Params_C11.
 Local Open Scope Z_scope.
 
 (* ---- array list ---- *)
@@ -172,3 +172,80 @@ Theorem next_pow_of_2_rounds_up : forall c, 1 <= c <= two31 ->
   is_pow2_cap (u32 (next_pow_of_2 (u64 c))) /\ c <= u32 (next_pow_of_2 (u64 c)).
 Proof. exact next_pow_of_2_spec. Qed.
 Print Assumptions next_pow_of_2_rounds_up.
+
+(* ---- heap level: explicit next / prev / data maps, head and tail sentinels, every pointer
+        assignment of linked_list.c / queue.c / pointer_slot.c transcribed in order
+        (C11/ModelHeap.v); these models refine the functional sequence models above ---- *)
+
+(* a well-formed chain head -> l -> tail (links: a->next = b /\ b->prev = a for consecutive
+   nodes; all nodes distinct, hence no cycle): next and prev are mutually inverse along it *)
+Theorem heap_chain_next_prev_inverse : forall h l, wf_chain h l ->
+  (forall x, In x (l ++ [TAIL]) -> hnext h (hprev h x) = x) /\
+  (forall x, In x (HEAD :: l) -> hprev h (hnext h x) = x).
+Proof. exact wf_chain_inverse. Qed.
+Print Assumptions heap_chain_next_prev_inverse.
+
+(* ... the forward walk is the sequence and the backward walk its reverse *)
+Theorem heap_chain_walks : forall h l fuel, wf_chain h l -> (length l < fuel)%nat ->
+  h_walk_fw fuel h (hnext h HEAD) = l /\ h_walk_bw fuel h (hprev h TAIL) = rev l.
+Proof. exact wf_chain_walks. Qed.
+Print Assumptions heap_chain_walks.
+
+(* linked list, one operation (insert-before / append-after / remove / clear; node arguments
+   found by first + k times next): result and new chain are those of the functional model *)
+Theorem list_heap_step_refines : forall hs s o, ll_inv s -> hl_R hs s -> ll_op_ok s o = true ->
+  exists hs', hl_pstep hs o = Some (hs', snd (ll_step s o)) /\ hl_R hs' (fst (ll_step s o)).
+Proof. exact hl_pstep_refines. Qed.
+Print Assumptions list_heap_step_refines.
+
+Theorem list_heap_find_refines : forall cmp hs s pos data, ll_inv s -> hl_R hs s ->
+  match pos with None => True | Some k => pos_ok s k = true end ->
+  hl_find cmp hs (match pos with None => None | Some k => Some (node_at s k) end) data = ll_find cmp s pos data.
+Proof. exact hl_find_refines. Qed.
+Print Assumptions list_heap_find_refines.
+
+(* linked list, every history from init (with and without node pool): the heap-level run never
+   gets stuck (clear terminates), its forward walk is the functional model's node sequence, the
+   backward walk is the reverse, the chain is well formed (acyclic, ids unique), and the data
+   sequence and results are those of the reference sequence *)
+Theorem list_heap_refines_seq : forall c ok hs ops, hl_init c ok = Some hs ->
+  exists s, ll_init c ok = Some s /\
+    (ll_ops_ok s ops ->
+     exists hs', hl_prun hs ops = Some (hs', snd (ll_run s ops)) /\
+       hl_forward hs' = litems (fst (ll_run s ops)) /\
+       hl_backward hs' = rev (map fst (hl_forward hs')) /\
+       wf_chain (hh hs') (map fst (hl_forward hs')) /\
+       (map snd (hl_forward hs'), snd (ll_run s ops)) = ref_ll_run [] ops (ll_fail_flags s ops)).
+Proof. exact hl_history. Qed.
+Print Assumptions list_heap_refines_seq.
+
+(* queue, every history from init *)
+Theorem queue_heap_refines_seq : forall c ok hs ops, hq_init c ok = Some hs ->
+  exists q, qu_init c ok = Some q /\
+    exists hs', hq_run hs ops = Some (hs', snd (qu_run q ops)) /\
+      hl_forward hs' = qitems (fst (qu_run q ops)) /\
+      hl_backward hs' = rev (map fst (hl_forward hs')) /\
+      wf_chain (hh hs') (map fst (hl_forward hs')) /\
+      hq_front hs' = qu_front (fst (qu_run q ops)) /\
+      (map snd (hl_forward hs'), snd (qu_run q ops)) = ref_qu_run [] ops (qu_fail_flags q ops).
+Proof. exact hq_history. Qed.
+Print Assumptions queue_heap_refines_seq.
+
+(* pointer slot, every history from init (+ cursor preset), every requested capacity: the
+   head..tail list threaded through slots[] is a well-formed chain over exactly the live
+   sequence of the functional model; iterating it gives ps_iter (insertion order) *)
+Theorem ps_heap_refines_live_list : forall req a hs0 ops, 0 <= req <= two31 -> hps_init req true = Some hs0 ->
+  Forall op_ok ops ->
+  exists hs' rs, hps_run (hps_preset hs0 a) ops = Some (hs', rs) /\
+                 ps_run (ps_preset (hcore hs0) a) ops = Some (hcore hs', rs) /\
+                 wf_chain (hlinks hs') (live (hcore hs')) /\
+                 hps_iter hs' = ps_iter (hcore hs') /\ hps_backward hs' = rev (map fst (hps_iter hs')).
+Proof. exact hps_reachable. Qed.
+Print Assumptions ps_heap_refines_live_list.
+
+(* ---- second tie to the source (DESIGN.md 4.4): the C text of muggle_array_list_get_index,
+        re-translated by lib/leaftrans.py on this run (gen/Params_C11.v), equals the model ---- *)
+Theorem gen_get_index_eq : forall s index, al_inv s -> int_ok index ->
+  gen_muggle_array_list_get_index (asize s) index = al_get_index s index.
+Proof. exact gen_get_index_matches_model. Qed.
+Print Assumptions gen_get_index_eq.
